@@ -68,6 +68,9 @@ enum Cmd {
     PanicPop(usize),
     SetGlobal(Dispatch),
     Hit(usize),
+    /// an emission made inside a future carrying its own collector (`WithCollector::with_collector`), polled once here: the
+    /// scope lasts for the poll
+    FutureHit(Dispatch, usize),
     Quit,
 }
 
@@ -108,6 +111,20 @@ fn worker(rx: Receiver<Cmd>, tx: Sender<String>) {
             Cmd::Hit(i) => {
                 LOG.lock().unwrap().clear();
                 pool::hit(i);
+                let l = LOG.lock().unwrap();
+                match l.len() {
+                    0 => "-".to_string(),
+                    1 => format!("c{}", l[0]),
+                    _ => format!("MULTI{:?}", *l),
+                }
+            }
+            Cmd::FutureHit(d, i) => {
+                use tracing::instrument::WithCollector;
+                LOG.lock().unwrap().clear();
+                let fut = async move { pool::hit(i) }.with_collector(d);
+                let mut fut = std::pin::pin!(fut);
+                let mut cx = std::task::Context::from_waker(std::task::Waker::noop());
+                let _ = std::future::Future::poll(fut.as_mut(), &mut cx);
                 let l = LOG.lock().unwrap();
                 match l.len() {
                     0 => "-".to_string(),
@@ -202,6 +219,11 @@ fn main() {
             "em" | "sp" => {
                 let t: usize = op[1].parse().unwrap(); let i: usize = op[2].parse().unwrap();
                 if t < threads.len() { out.push(call(&threads, t, Cmd::Hit(i))); }
+            }
+            "wc" => {
+                // `wc t c i`: the same as `sd t c ; em t i ; pd t`, written as a future with its own collector
+                let t: usize = op[1].parse().unwrap(); let c: usize = op[2].parse().unwrap(); let i: usize = op[3].parse().unwrap();
+                if t < threads.len() { if let Some(d) = handles.get(&c) { out.push(call(&threads, t, Cmd::FutureHit(d.clone(), i))); } }
             }
             "rb" => tracing_core::callsite::rebuild_interest_cache(),
             "fl" => {
